@@ -740,7 +740,19 @@ impl CliOptions for GetOptsOptions {
             config.set_cli().print_misformatted_file_names(true);
         }
 
-        for (key, val) in self.inline_config {
+        // Apply the overrides in a fixed order rather than in the `HashMap`'s iteration order:
+        // `max_width` and `use_small_heuristics` decide how the width options are validated and
+        // derived, so they come first; the remaining keys follow alphabetically.
+        let mut inline_config: Vec<_> = self.inline_config.into_iter().collect();
+        inline_config.sort_by_key(|(key, _)| {
+            let rank = match key.as_str() {
+                "max_width" => 0,
+                "use_small_heuristics" => 1,
+                _ => 2,
+            };
+            (rank, key.clone())
+        });
+        for (key, val) in inline_config {
             config.override_value(&key, &val);
         }
     }
